@@ -13,8 +13,6 @@ import (
 	"verif/sym"
 )
 
-var Debug = os.Getenv("SYMGO_DEBUG") != ""
-
 // Explorer runs the concolic generational search over one harness function.
 type Explorer struct {
 	W       *World
@@ -46,6 +44,9 @@ type ExploreStats struct {
 	Paths        int // finished runs (all statuses except assume-fail)
 	AssumeFailed int
 	ByStatus     map[string]int
+	TRel, TPrint, TQuery time.Duration
+	RunTime      time.Duration
+	ProcTime     time.Duration
 	Queries      int
 	CacheHits    int
 	Sat          int
@@ -144,6 +145,10 @@ func (e *Explorer) Explore(seedInputs map[string]uint64) error {
 		go func(id int) {
 			defer wg.Done()
 			sol, err := sym.StartSolver(e.Solver)
+			if err == nil && Debug && id == 0 {
+				lf, _ := os.Create("/tmp/z3log.smt2")
+				sol.Log = lf
+			}
 			if err != nil {
 				errs <- err
 				e.mu.Lock()
@@ -184,8 +189,17 @@ func (e *Explorer) Explore(seedInputs map[string]uint64) error {
 }
 
 func (e *Explorer) process(it *workItem, sol *sym.Solver, id int) {
+	tr0 := time.Now()
 	in := NewInterp(e.W, e.Cfg, it.inputs)
 	res := in.Run(e.Fn, nil)
+	e.mu.Lock()
+	e.Stats.RunTime += time.Since(tr0)
+	e.mu.Unlock()
+	defer func(t time.Time) {
+		e.mu.Lock()
+		e.Stats.ProcTime += time.Since(t)
+		e.mu.Unlock()
+	}(tr0)
 
 	// divergence check: the run must reproduce the expected prefix
 	diverged := false
@@ -349,7 +363,9 @@ func (e *Explorer) expand(res *RunResult, it *workItem, sol *sym.Solver) {
 	}
 
 	ask := func(i int, goal []*sym.Term, extraText func(pr *sym.Printer) string, seedVars map[string]bool, onSat func(map[string]uint64)) {
+		tA := time.Now()
 		rel, S := relevant(i, seedVars)
+		tB := time.Now()
 		names := make([]string, 0, len(S))
 		for k := range S {
 			names = append(names, k)
@@ -370,7 +386,14 @@ func (e *Explorer) expand(res *RunResult, it *workItem, sol *sym.Solver) {
 			sb.WriteString(extraText(pr))
 		}
 		text := sb.String()
+		tC := time.Now()
 		e.query(sol, vars, text, onSat)
+		tD := time.Now()
+		e.mu.Lock()
+		e.Stats.TRel += tB.Sub(tA)
+		e.Stats.TPrint += tC.Sub(tB)
+		e.Stats.TQuery += tD.Sub(tC)
+		e.mu.Unlock()
 		if e.SampleEvery > 0 {
 			e.mu.Lock()
 			e.sampleCtr++
@@ -454,12 +477,24 @@ func (e *Explorer) query(sol *sym.Solver, vars []*sym.Term, text string, onSat f
 			decl = append(decl, v)
 		}
 	}
+	t0 := time.Now()
 	sol.Declare(decl)
 	sol.Send("(push 1)\n" + text)
+	if Debug {
+		fmt.Printf("send %.3fs len=%d\n", time.Since(t0).Seconds(), len(text))
+	}
+	tq := time.Now()
 	ans := sol.CheckSat()
+	if d := time.Since(tq); Debug && d > 300*time.Millisecond {
+		fmt.Printf("SLOW QUERY %.2fs ans=%s len=%d\n%s\n", d.Seconds(), ans, len(text), text)
+	}
 	switch ans {
 	case "sat":
+		tg := time.Now()
 		m, err := sol.GetValues(vars)
+		if Debug {
+			fmt.Printf("getvalues %.3fs\n", time.Since(tg).Seconds())
+		}
 		if err != nil {
 			e.drop("get-value: " + err.Error())
 		} else {
@@ -473,14 +508,18 @@ func (e *Explorer) query(sol *sym.Solver, vars []*sym.Term, text string, onSat f
 	default:
 		e.drop("solver " + ans)
 	}
+	tp := time.Now()
 	sol.Send("(pop 1)\n")
+	if Debug {
+		fmt.Printf("pop %.3fs check %.3fs\n", time.Since(tp).Seconds(), tp.Sub(tq).Seconds())
+	}
 }
 
 // Summary renders stats.
 func (s *ExploreStats) Summary() string {
 	var sb strings.Builder
-	fmt.Fprintf(&sb, "paths=%d assume-failed=%d cachehits=%d queries=%d (sat %d unsat %d unknown %d err %d) dropped=%d divergences=%d steps=%d maxtrace=%d solver=%.2fs wall=%.2fs incomplete=%v",
-		s.Paths, s.AssumeFailed, s.CacheHits, s.Queries, s.Sat, s.Unsat, s.Unknown, s.SolverErrors, s.Dropped, s.Divergences, s.Steps, s.MaxTrace, s.SolverTime.Seconds(), s.Wall.Seconds(), s.Incomplete)
+	fmt.Fprintf(&sb, "paths=%d assume-failed=%d cachehits=%d queries=%d (sat %d unsat %d unknown %d err %d) rel=%.1fs print=%.1fs query=%.1fs run=%.1fs proc=%.1fs dropped=%d divergences=%d steps=%d maxtrace=%d solver=%.2fs wall=%.2fs incomplete=%v",
+		s.Paths, s.AssumeFailed, s.CacheHits, s.Queries, s.Sat, s.Unsat, s.Unknown, s.SolverErrors, s.TRel.Seconds(), s.TPrint.Seconds(), s.TQuery.Seconds(), s.RunTime.Seconds(), s.ProcTime.Seconds(), s.Dropped, s.Divergences, s.Steps, s.MaxTrace, s.SolverTime.Seconds(), s.Wall.Seconds(), s.Incomplete)
 	keys := []string{}
 	for k := range s.ByStatus {
 		keys = append(keys, k)
